@@ -137,11 +137,7 @@ int main(int argc, char** argv) {
     }
     gen<1>(tr, 2, rng);
     gen<2>(tr, 2, rng);
-    gen<1>(tr, 3, rng);
-    gen<2>(tr, 3, rng);
-    if (argc >= 5 && !std::strcmp(argv[4], "lu3")) {
-      gen<3>(tr, 2, rng);
-    }
+    gen<3>(tr, 2, rng);
     tr.write(argv[2]);
     return 0;
   }
